@@ -14,7 +14,7 @@ T_ZeroArgs == {0, 1, 3}
 T_SetPos == 0..7
 T_SetBitsArgs == {<<i, len, w>> : i \in 0..5, len \in {0, 1, 2, 3}, w \in WordsOf(3)}
 T_BoolArgs == {<< >>, <<1>>, <<0, 1>>, <<1, 1, 0>>}
-T_PosArgs == {<< >>, <<0>>, <<1>>, <<0, 2>>, <<1, 3>>, <<4>>, <<2, 1>>}
+T_PosArgs == {<< >>, <<0>>, <<1>>, <<0, 2>>, <<1, 3>>, <<4>>, <<2, 1>>, <<1, 1>>, <<3, 0, 3>>}
 
 \* ---- real constants (64-bit words, 512-bit lines): behaviour generation
 Alt(len) == SelectSeq([q \in 1..len |-> q - 1], LAMBDA x : x % 2 = 0)
@@ -25,5 +25,5 @@ R_SetPos == {0, 1, 63, 64, 65, 511, 512, 513}
 R_SetBitsArgs == {<<0, 0, << >>>>, <<0, 1, <<0>>>>, <<0, 64, Full(64)>>, <<0, 64, << >>>>, <<1, 63, <<0, 62>>>>, <<60, 8, <<0, 7>>>>,
                   <<63, 2, <<1>>>>, <<448, 64, Alt(64)>>, <<505, 14, <<0, 6, 7, 13>>>>, <<1, 64, <<63>>>>}
 R_BoolArgs == {<<1>>, <<0>>, <<1, 0, 1>>}
-R_PosArgs == {<<0>>, <<1>>, <<2, 3>>, <<1, 2, 70>>, <<600>>}
+R_PosArgs == {<<0>>, <<1>>, <<2, 3>>, <<1, 2, 70>>, <<600>>, <<3, 3>>, <<65, 2, 65>>}
 =============================================================================
